@@ -93,6 +93,19 @@ impl<F: Float + SampleUniform + std::fmt::Debug, D: Hash + Copy, H: Hasher + Def
         self.nb_empty
     }
 
+
+    /// verification hook : raw state (float sketch, hashes, populated flags, number of empty bins), readable before end_sketch
+    #[cfg(feature = "verif_hooks")]
+    #[allow(clippy::type_complexity)]
+    pub fn verif_raw_state(&self) -> (Vec<F>, Vec<u64>, Vec<bool>, i64) {
+        (
+            self.hsketch.clone(),
+            self.values.clone(),
+            self.init.clone(),
+            self.nb_empty,
+        )
+    }
+
     /// returns a reference to computed sketches of type F:Float.
     pub fn get_hsketch(&self) -> &Vec<F> {
         if self.nb_empty > 0 {
@@ -193,9 +206,13 @@ impl<F: Float + SampleUniform + std::fmt::Debug, D: Hash + Copy, H: Hasher + Def
                 // change hash function for each, item. rng has no loop at expected horizon and provides independance so we get universal hash function
                 let mut rng2 = ChaCha12Rng::seed_from_u64(k as u64 + 123743);
                 loop {
+                    #[cfg(feature = "verif_hooks")]
+                    crate::verif::densify_tick((m as i64 - self.nb_empty) as usize, m);
                     // we search a non empty bin to fill slot k
                     let j: usize = inrange.sample(&mut rng2);
                     if self.init[j] {
+                        #[cfg(feature = "verif_hooks")]
+                        crate::verif::tick(crate::verif::Event::DensCopy);
                         self.values[k] = self.values[j];
                         self.hsketch[k] = self.hsketch[j];
                         self.init[k] = true;
@@ -275,6 +292,19 @@ impl<F: Float + SampleUniform + std::fmt::Debug, D: Hash + Copy, H: Hasher + Def
             self.init[i] = false;
         }
         self.nb_empty = size as i64;
+    }
+
+
+    /// verification hook : raw state (float sketch, hashes, populated flags, number of empty bins), readable before end_sketch
+    #[cfg(feature = "verif_hooks")]
+    #[allow(clippy::type_complexity)]
+    pub fn verif_raw_state(&self) -> (Vec<F>, Vec<u64>, Vec<bool>, i64) {
+        (
+            self.hsketch.clone(),
+            self.values.clone(),
+            self.init.clone(),
+            self.nb_empty,
+        )
     }
 
     /// returns a reference to computed sketches of type F:Float
@@ -362,12 +392,16 @@ impl<F: Float + SampleUniform + std::fmt::Debug, D: Hash + Copy, H: Hasher + Def
         let unif_m = Uniform::<usize>::new(0, m).unwrap();
         let mut pass: u64 = 1;
         while self.nb_empty > 0 {
+            #[cfg(feature = "verif_hooks")]
+            crate::verif::densify_tick((m as i64 - self.nb_empty) as usize, m);
             for k in 0..m {
                 if self.init[k] {
                     let mut rng2 =
                         ChaCha12Rng::seed_from_u64((k as u64 + 1) * m as u64 + pass + 253713);
                     let j: usize = unif_m.sample(&mut rng2);
                     if !self.init[j] {
+                        #[cfg(feature = "verif_hooks")]
+                        crate::verif::tick(crate::verif::Event::DensCopy);
                         self.values[j] = self.values[k];
                         self.hsketch[j] = self.hsketch[k];
                         self.init[j] = true;
